@@ -46,6 +46,8 @@ ASSUMPTIONS = [
     'MultiStream of another package (a material defect reported to C05)',
     'Hvap(298.15 K), Hfus, Hf, MW, phase_ref are numbers for every chemical used (none is None)',
     'float results are compared with the exact-rational model at rtol 1e-9 of the magnitude of the summed terms',
+    'the −1e-12 InfeasibleRegion test: either outcome is accepted only on lines the driver marks fragile=1, i.e. when the '
+    'exact negatives\' sum is within the float-error bound 8·(K+1)·2⁻⁵³·Σ|summands| of the threshold (counted: model:fragile=1)',
 ]
 TRUSTED = ['Lean 4.33 kernel', 'harness/props/c06.py + Driver/C06.lean', 'generator reach (see histogram)',
            'field-vs-float gap (tolerance 1e-9 relative to the summed magnitudes)']
@@ -520,6 +522,11 @@ def compare(impl_line, model_line):
     if 'BROKEN' in model_line: return False
     a, b = _fields(impl_line), _fields(model_line)
     if '_rest' in a or '_rest' in b: return False
+    # The −1e-12 feasibility test is decided in floats by the real code and exactly by the model.  The driver marks a
+    # line `fragile=1` only when entries perturbed by the float-error bound of the routed computation
+    # (8·(K+1)·2⁻⁵³·Σ|summands| per species) can decide the test either way; then — and only then — the real call may
+    # raise InfeasibleRegion where the exact model returns flows (or return flows, compared below, where it raises).
+    if a.get('err') == 'infeasible' and len(a) == 1 and b.get('fragile') == '1': return True
     try:
         sc = _num(b['sc']) if 'sc' in b else 0.0
         for k, v in a.items():
@@ -551,7 +558,7 @@ def disagree_signature(case, res, first):
 
 def model_tags(line):
     out = []
-    for key in ('chk=clamped', 'hyp=unmet', 'err=infeasible', 'err=runtime'):
+    for key in ('chk=clamped', 'hyp=unmet', 'err=infeasible', 'err=runtime', 'fragile=1'):
         if key in line: out.append(key)
     return out
 
@@ -710,6 +717,13 @@ def generate(rng, tier, index, nworkers):
 
 def corpus():
     return [
+        # X = 1 on the weight basis at ~1e4 kg/hr: the exact model ends at 0, the float call a few ulps below −1e-12 and raises
+        # InfeasibleRegion (seed 106 of a soak run); accepted only because the driver marks the line fragile=1
+        Case(['R r0 wt 0 O2 ph=- :: Methanol + 1.5 O2 -> CO2 + 2 Water', 'R r1 wt 0.1 CO ph=- :: 2 CO + 4 H2 -> 2 Methanol',
+              'R r2 wt 1 AceticAcid ph=- :: 2 Ethanol + 2 AceticAcid -> 2 EthylAcetate + 2 Water',
+              'R r3 wt 0.302 CO ph=- :: CO + 2 H2 -> Methanol', 'Q g0 r0', 'Q g1 r1,r2,r3', 'Y y0 g0,g1',
+              'S s0 1 281.77 101325 g AceticAcid:g:200.5,N2:g:0,O2:g:6.95,CO:g:18.296,Methanol:g:4.633333333333333,H2:g:73.184,Ethanol:g:200.5',
+              'iso y0 s0']),
         # compile → revise Hf of participating chemicals → refresh_constants() → dH / Hf / Hnet / isothermal / adiabatic
         Case(['R r0 mol 0.7 H2 ph=- :: 2 H2 + O2 -> 2 Water', 'R r1 wt 0.7 CH4 ph=- :: CH4 + 2 O2 -> CO2 + 2 Water', 'dh r0', 'dh r1',
               'S s0 0 298.15 101325 g H2:g:10,CH4:g:4,O2:g:50,Water:g:20,CO2:g:1',
